@@ -102,6 +102,18 @@ func reachableAvoidingEdges(fn *ssa.Function, cut map[[2]*ssa.BasicBlock]bool) m
 
 // chanRoot describes where a channel value comes from.
 func chanRoot(v ssa.Value) string {
+	// a channel passed on with a narrower direction is the same channel
+	for i := 0; i < 4; i++ {
+		if ct, ok := v.(*ssa.ChangeType); ok {
+			v = ct.X
+			continue
+		}
+		if cv, ok := v.(*ssa.Convert); ok {
+			v = cv.X
+			continue
+		}
+		break
+	}
 	switch x := v.(type) {
 	case *ssa.UnOp:
 		if x.Op == token.MUL {
@@ -188,6 +200,16 @@ func ruleGoroutinesBounded(ctx *Ctx, r *Report, rule string, gs goSite) {
 	why := ""
 	for _, l := range loops {
 		root := chanRoot(l.chanVal)
+		// a named goroutine function receives its channel as an argument: look at what is passed
+		if pr, isParam := l.chanVal.(*ssa.Parameter); isParam {
+			if g := gs.instr; g != nil {
+				for i, fp := range fn.Params {
+					if fp == pr && i < len(g.Call.Args) {
+						root = chanRoot(g.Call.Args[i])
+					}
+				}
+			}
+		}
 		if strings.HasPrefix(root, "global:") || root == "field" || root == "other" {
 			terminating = false
 			why = "ranges over " + root + " which nothing closes per render"
